@@ -262,12 +262,12 @@ theorem step_accounting {f : Facts} (hn : f.naoIsOSError = true) (st : State) (e
         simp [Phase.holdsN, Phase.holds, one] at *
         omega
       | starting vs prio q =>
-        cases hcx : f.cancelIsOSError with
+        cases hcx : f.cancelCaught with
         | true =>
-          have hh := held_setPhase st i _ .gone (put (prio + 1, q) st.pool) p hph
-          have hc := count_put (prio + 1, q) st.pool p
+          have hh := held_setPhase st i _ .gone (put (f.cancelReturn prio, q) st.pool) p hph
+          have hc := count_put (f.cancelReturn prio, q) st.pool p
           simp only [inPool, poolPorts, if_true]
-          have : (setPhase st i Phase.gone (put (prio + 1, q) st.pool)).pool = put (prio + 1, q) st.pool := rfl
+          have : (setPhase st i Phase.gone (put (f.cancelReturn prio, q) st.pool)).pool = put (f.cancelReturn prio, q) st.pool := rfl
           simp [this]
           simp [Phase.holdsN, Phase.holds, one] at *
           omega
@@ -329,8 +329,8 @@ theorem noCancel_take {f : Facts} {st : State} {evs : List Event} (h : NoCancelI
       simp only [List.take_succ_cons, NoCancelInStartup, noCancelInStartup, Bool.and_eq_true, Bool.not_eq_true']
       exact ⟨h1, ih h2 k⟩
 
-/-- with `CancelledError` an `OSError` (it is not) nothing would ever be lost -/
-theorem lostIn_zero_of_cancelIsOSError {f : Facts} (hc : f.cancelIsOSError = true) (st : State)
+/-- when some clause meets the cancellation nothing is ever lost -/
+theorem lostIn_zero_of_cancelCaught {f : Facts} (hc : f.cancelCaught = true) (st : State)
     (evs : List Event) (p : Port) : lostIn f st p evs = 0 := by
   induction evs generalizing st with
   | nil => rfl
